@@ -273,9 +273,15 @@ CMember ==
 CEnd ==
     /\ todo # <<>> /\ Top1.w = "cend"
     /\ \E hs \in MemberHdrSeps, ms \in MemberMidSeps, tail \in ObjStmTails :
-          LET header == Concat([i \in 1..Len(moffs) |-> AsciiDigits(moffs[i].num) \o ms \o AsciiDigits(moffs[i].off) \o hs])
+          LET header0 == Concat([i \in 1..Len(moffs) |-> AsciiDigits(moffs[i].num) \o ms \o AsciiDigits(moffs[i].off) \o hs])
+              \* First behind a reference: the document holds an integer object with the value fval; the header is
+              \* padded with white-space up to it (if it is longer already, First is written directly)
+              fIndirect == Top1.fref # 0 /\ Len(header0) <= Top1.fval /\ Len(moffs) > 0
+              header == IF fIndirect THEN header0 \o [i \in 1..(Top1.fval - Len(header0)) |-> 32] ELSE header0
               content == header \o out \o tail
-              d == (NameType :> OName(NameObjStm)) @@ (NameN :> NatObj(Len(moffs))) @@ (NameFirst :> NatObj(Len(header)))
+              d == (NameType :> OName(NameObjStm))
+                   @@ (NameN :> (IF Top1.nref # 0 /\ K.ghost = 0 THEN ORef(Top1.nref, 0) ELSE NatObj(Len(moffs))))
+                   @@ (NameFirst :> (IF fIndirect THEN ORef(Top1.fref, 0) ELSE NatObj(Len(header))))
               fl == FilterStruct(content, K.crow, d)
           IN todo' = ObjItems([num |-> Top1.cnum, gen |-> 0, val |-> OStream(fl.d, fl.data)], 0) \o Rest
     /\ out' = outer /\ outer' = <<>> /\ moffs' = <<>>
@@ -463,7 +469,11 @@ RevItems(doc, k, r) ==
                           <<[w |-> "cstart"]>> \o
                           [m \in 1..Len(rev.comp[c].members) |-> [w |-> "cmember", num |-> rev.comp[c].members[m].num, v |-> rev.comp[c].members[m].val]] \o
                           (IF k.ghost # 0 THEN <<[w |-> "cmember", num |-> k.ghost, v |-> OArr(<<NatObj(rev.comp[c].cnum), NatObj(r)>>)]>> ELSE <<>>) \o
-                          <<[w |-> "cend", cnum |-> rev.comp[c].cnum]>>])
+                          <<[w |-> "cend", cnum |-> rev.comp[c].cnum,
+                             \* optional: N and First written as references to integer objects of the document
+                             nref |-> IF "nref" \in DOMAIN rev.comp[c] THEN rev.comp[c].nref ELSE 0,
+                             fref |-> IF "fref" \in DOMAIN rev.comp[c] THEN rev.comp[c].fref ELSE 0,
+                             fval |-> IF "fval" \in DOMAIN rev.comp[c] THEN rev.comp[c].fval ELSE 0]>>])
     IN <<[w |-> "revstart", r |-> r]>> \o
        Concat([i \in 1..Len(objs) |-> ObjItems(objs[i], 0)]) \o
        (IF UseComp(k) \/ r \in k.hybrid THEN containers ELSE plainMembers) \o
